@@ -76,12 +76,9 @@ pub fn read_graphml_string(string: &str, specs: GraphSpecs) -> Result<Graph<Stri
                     }
                 }
                 b"key" => {
-                    let attrs = get_attributes_as_hashmap(e);
-                    if attrs.contains_key("attr.name")
-                        && attrs.get("attr.name").unwrap() == "weight"
-                        && attrs.get("for").unwrap() == "edge"
-                    {
-                        edge_weight_attr_name = attrs.get("id").unwrap().to_string();
+                    let attrs = get_attributes_as_hashmap(e)?;
+                    if let Some(id) = get_edge_weight_key_id(&attrs)? {
+                        edge_weight_attr_name = id;
                     }
                 }
                 _ => (),
@@ -89,7 +86,7 @@ pub fn read_graphml_string(string: &str, specs: GraphSpecs) -> Result<Graph<Stri
             Ok(Event::Start(ref e)) => {
                 match e.name().as_ref() {
                     b"graph" => {
-                        let attrs = get_attributes_as_hashmap(e);
+                        let attrs = get_attributes_as_hashmap(e)?;
                         match attrs.get("edgedefault") {
                             None => {
                                 return Err(get_read_error("the <graph> element does not have an \"edgedefault\" attribute"));
@@ -122,27 +119,31 @@ pub fn read_graphml_string(string: &str, specs: GraphSpecs) -> Result<Graph<Stri
                         }
                     }
                     b"key" => {
-                        let attrs = get_attributes_as_hashmap(e);
-                        if attrs.contains_key("attr.name")
-                            && attrs.get("attr.name").unwrap() == "weight"
-                            && attrs.get("for").unwrap() == "edge"
-                        {
-                            edge_weight_attr_name = attrs.get("id").unwrap().to_string();
+                        let attrs = get_attributes_as_hashmap(e)?;
+                        if let Some(id) = get_edge_weight_key_id(&attrs)? {
+                            edge_weight_attr_name = id;
                         }
                     }
                     b"data" => {
-                        let attrs = get_attributes_as_hashmap(e);
+                        let attrs = get_attributes_as_hashmap(e)?;
                         if attrs.contains_key("key") {
                             let key = attrs.get("key").unwrap();
                             if key == &edge_weight_attr_name {
                                 let mut buf = Vec::new();
                                 match reader.read_event_into(&mut buf) {
                                     Ok(Event::Text(e)) => {
-                                        let weight = str::from_utf8(&e).unwrap();
-                                        match last_element_name.as_str() {
-                                            "edge" => {
-                                                let edge = Arc::make_mut(edges.last_mut().unwrap());
-                                                edge.weight = weight.parse::<f64>().unwrap();
+                                        let weight = str::from_utf8(&e).map_err(|_| {
+                                            get_read_error("an edge weight is not valid UTF-8")
+                                        })?;
+                                        match (last_element_name.as_str(), edges.last_mut()) {
+                                            ("edge", Some(last_edge)) => {
+                                                let edge = Arc::make_mut(last_edge);
+                                                edge.weight = weight.parse::<f64>().map_err(|_| {
+                                                    get_read_error(
+                                                        format!("the edge weight \"{}\" is not a number", weight)
+                                                            .as_str(),
+                                                    )
+                                                })?;
                                             }
                                             _ => (),
                                         }
@@ -270,7 +271,7 @@ where
 }
 
 fn add_edge(edges: &mut Vec<Arc<Edge<String, ()>>>, e: &BytesStart) -> Result<(), Error> {
-    let attrs = get_attributes_as_hashmap(e);
+    let attrs = get_attributes_as_hashmap(e)?;
     if !attrs.contains_key("source") {
         return Err(get_read_error(
             "an <edge> element does not have a \"source\" attribute",
@@ -289,7 +290,7 @@ fn add_edge(edges: &mut Vec<Arc<Edge<String, ()>>>, e: &BytesStart) -> Result<()
 }
 
 fn add_node(nodes: &mut Vec<Arc<Node<String, ()>>>, e: &BytesStart) -> Result<(), Error> {
-    let attrs = get_attributes_as_hashmap(e);
+    let attrs = get_attributes_as_hashmap(e)?;
     match attrs.get("id") {
         None => Err(get_read_error(
             "a <node> element does not have an \"id\" attribute",
@@ -301,17 +302,35 @@ fn add_node(nodes: &mut Vec<Arc<Node<String, ()>>>, e: &BytesStart) -> Result<()
     }
 }
 
-fn get_attributes_as_hashmap(event: &BytesStart) -> HashMap<String, String> {
-    event
-        .attributes()
-        .map(|a| {
-            let attr = a.unwrap();
-            let key_vec = attr.key.local_name().as_ref().to_vec();
-            let key = String::from_utf8(key_vec).unwrap();
-            let value = attr.unescape_value().unwrap().into_owned();
-            (key, value)
-        })
-        .collect()
+fn get_attributes_as_hashmap(event: &BytesStart) -> Result<HashMap<String, String>, Error> {
+    let mut attributes = HashMap::new();
+    for a in event.attributes() {
+        let attr = a.map_err(|e| get_read_error(format!("malformed attribute: {}", e).as_str()))?;
+        let key_vec = attr.key.local_name().as_ref().to_vec();
+        let key = String::from_utf8(key_vec)
+            .map_err(|e| get_read_error(format!("attribute name is not valid UTF-8: {}", e).as_str()))?;
+        let value = attr
+            .unescape_value()
+            .map_err(|e| get_read_error(format!("malformed attribute value: {}", e).as_str()))?
+            .into_owned();
+        attributes.insert(key, value);
+    }
+    Ok(attributes)
+}
+
+/// If a <key> element declares the edge weight attribute, returns its id.
+fn get_edge_weight_key_id(attrs: &HashMap<String, String>) -> Result<Option<String>, Error> {
+    if attrs.get("attr.name").map(|v| v.as_str()) == Some("weight")
+        && attrs.get("for").map(|v| v.as_str()) == Some("edge")
+    {
+        return match attrs.get("id") {
+            Some(id) => Ok(Some(id.to_string())),
+            None => Err(get_read_error(
+                "the <key> element for the edge weight does not have an \"id\" attribute",
+            )),
+        };
+    }
+    Ok(None)
 }
 
 fn get_read_error(message: &str) -> Error {
